@@ -1,7 +1,7 @@
 (* C11 — STBC container: total decoder, exact round trip, validated means safe. Pinned statements
    over Model/Stbc.v (frame decoding for arbitrary bytes, string-table codec, allocation). *)
 From Coq Require Import List Bool Arith NArith.
-From TP Require Import Model.Stbc Model.StbcEnc Proofs.C11Proofs Proofs.C11Frame.
+From TP Require Import Model.Stbc Model.StbcEnc Model.StbcFmt Model.StbcSections Proofs.C11Proofs Proofs.C11Frame Proofs.C11Fmt.
 Import ListNotations.
 Open Scope N_scope.
 
@@ -44,6 +44,43 @@ Theorem c11_frame_nonvacuous :
 Proof. exact frame_demo. Qed.
 Theorem c11_nonvacuous : exists f, dec_frame (fun _ => 0) demo_frame = Ok f /\ map e_off (f_entries f) = [48; 56] /\ map e_len (f_entries f) = [6; 4].
 Proof. exact demo_frame_ok. Qed.
+(* ---- section contents: the format calculus (Model/StbcFmt.v) and the section descriptors (Model/StbcSections.v) ---- *)
+(* for every format: decoding what the encoder wrote gives back the tree and leaves whatever follows untouched *)
+Theorem dec_enc : forall f t bs rest, wf f t -> enc f t = Some bs -> dec f (bs ++ rest) = Some (t, rest).
+Proof. exact dec_enc_l. Qed.
+(* the decoder never reads out of bounds: an accepted input is the consumed bytes followed by the untouched suffix *)
+Theorem dec_consumes : forall f bs t rest, dec f bs = Some (t, rest) -> exists used, bs = used ++ rest.
+Proof. exact dec_consumes_l. Qed.
+(* decoded values are encodable; on canonical inputs (reserved bytes / padding zero) the encoder reproduces the consumed bytes *)
+Theorem dec_wf : forall f bs t rest, fmt_ok f -> bytes_ok bs -> dec f bs = Some (t, rest) -> wf f t.
+Proof. exact dec_wf_l. Qed.
+Theorem enc_dec_canonical : forall f bs t rest, bytes_ok bs -> canonical f bs -> dec f bs = Some (t, rest) ->
+  exists used, bs = used ++ rest /\ enc f t = Some used.
+Proof. exact enc_dec_canonical_l. Qed.
+Theorem enc_canonical : forall f t bs rest, wf f t -> enc f t = Some bs -> canonical f (bs ++ rest).
+Proof. exact enc_canonical_l. Qed.
+(* memory proportional to the input: no capacity request exceeds the number of bytes given *)
+Theorem cap_bounded : forall f bs, cap f bs <= blen bs.
+Proof. exact cap_bounded_l. Qed.
+Theorem section_fmt_ok : forall minor id f, section_fmt minor id = Some f -> fmt_ok f.
+Proof. exact section_fmt_ok_l. Qed.
+(* every section kind, the offset-indexed type table included *)
+Theorem section_round_trip : forall minor id t bs, wf_section minor id t -> enc_section minor id t = Some bs -> dec_section minor id bs = Some t.
+Proof. exact section_round_trip_l. Qed.
+Theorem section_round_trip_trailing : forall minor id f t bs extra, section_fmt minor id = Some f -> wf f t -> enc f t = Some bs ->
+  dec_section minor id (bs ++ extra) = Some t.
+Proof. exact section_round_trip_trailing_l. Qed.
+Theorem type_table_round_trip : forall t bs, wf_type_table t -> enc_type_table t = Some bs -> dec_type_table bs = Some t.
+Proof. exact type_table_round_trip_l. Qed.
+Theorem cap_section_bounded : forall minor id payload, cap_section minor id payload <= blen payload.
+Proof. exact cap_section_bounded_l. Qed.
+Theorem c11_sections_nonvacuous :
+  (wf_section 1 5 demo_pou_index /\ wf_section 1 4 demo_ref_table) /\
+  rt_of 1 5 demo_pou_index = (Some 144, Some demo_pou_index) /\ rt_of 1 4 demo_ref_table = (Some 52, Some demo_ref_table) /\
+  rt_of 1 2 demo_type_table = (Some 56, Some demo_type_table) /\
+  dec_section 1 5 [1; 0; 0; 0; 0; 0; 0; 0; 0; 0; 0; 0; 5; 0; 0; 0] = None /\
+  dec_section 1 8 [255; 255; 255; 255; 1; 0; 0; 0] = None /\ cap_section 1 8 [255; 255; 255; 255; 1; 0; 0; 0] = 4.
+Proof. exact demo_sections_all. Qed.
 Print Assumptions le32_round_trip.
 Print Assumptions frame_sections_in_bounds.
 Print Assumptions strtab_round_trip.
@@ -51,3 +88,15 @@ Print Assumptions strtab_capacity_bounded.
 Print Assumptions unbounded_capacity_refuted.
 Print Assumptions decode_of_encoded_frame.
 Print Assumptions encoded_payloads_are_returned.
+Print Assumptions dec_enc.
+Print Assumptions dec_consumes.
+Print Assumptions dec_wf.
+Print Assumptions enc_dec_canonical.
+Print Assumptions enc_canonical.
+Print Assumptions cap_bounded.
+Print Assumptions section_fmt_ok.
+Print Assumptions section_round_trip.
+Print Assumptions section_round_trip_trailing.
+Print Assumptions type_table_round_trip.
+Print Assumptions cap_section_bounded.
+Print Assumptions c11_sections_nonvacuous.
